@@ -21,7 +21,9 @@ Reading of the property on the model:
    batches. `C27_order`.
  * "accepted ⇒ delivered or dead-lettered": in a quiescent state (nothing left to run) every
    message whose `submit` returned nil is in a successfully flushed batch or was dead-lettered by
-   the fan-out. `C27_full` — FALSE of the current code (`C27_refuted`), see finding C27-F1.
+   the fan-out. `C27_full` — proved (`C27_holds`) since fixes 305110c (close drains every batch), f8d2f6b
+   (failed batch dead-lettered inline when the fan-out cannot take it) and 7baca6b (writer waits for submits in
+   progress before its final drain); the three former findings are regression theorems below.
 -/
 import GoaktVerif.Gen.C27
 import GoaktVerif.Model.C27
@@ -123,7 +125,7 @@ def C27_full : Prop :=
 def witnessClose : List Act :=
   [.begin (0, 0), .sub 0 0, .sub 0 0, .begin (0, 1), .sub 0 0, .sub 0 0,
    .close, .wstep 0 true, .wstep 0 true, .wstep 0 true, .wstep 0 true,
-   .wstep 0 true, .wstep 0 true, .wstep 0 true, .wstep 0 true, .wstep 0 true]
+   .wstep 0 true, .wstep 0 true, .wstep 0 true, .wstep 0 true, .wstep 0 true, .wstep 0 true, .wstep 0 true]
 
 def cfg1 : Cfg := { maxBatch := 1, hasHandler := true, fqCap := 256 }
 
@@ -133,26 +135,22 @@ theorem witnessClose_facts :
     (final cfg1 witnessClose).delivered = [(0, 0), (0, 1)] ∧
     (final cfg1 witnessClose).chan = [] ∧ (final cfg1 witnessClose).wpc = .exited := by decide
 
-/-- Witness (finding C27-F3, submit racing close): the sender passes the `done` pre-check, then
-    `close` runs and the writer exits on an empty channel, then the sender's try-send succeeds:
-    `submit` returns nil for a message nobody will ever read. -/
+/-- Regression (fixed C27-F3, submit racing close): the sender passes the `done` pre-check, then `close`
+    runs; the writer observes `done` but waits at the barrier (`c.inflight.Lock()`) until the sender's
+    call has finished; the sender's try-send succeeds and the final drain delivers the message.  Before
+    the fix the writer exited on the empty channel first and the message stayed there for ever. -/
 def witnessRace : List Act :=
-  [.begin (0, 0), .sub 0 0, .close, .wstep 0 true, .wstep 0 true, .wstep 0 true, .sub 0 0]
+  [.begin (0, 0), .sub 0 0, .close, .wstep 0 true, .wstep 0 true, .wstep 0 true, .sub 0 0,
+   .wstep 0 true, .wstep 0 true, .wstep 0 true, .wstep 0 true, .wstep 0 true, .wstep 0 true]
 
 theorem witnessRace_facts :
     (final cfg1 witnessRace).quiescent = true ∧ (final cfg1 witnessRace).results = [((0, 0), .ok)] ∧
-    (final cfg1 witnessRace).flushed = [] ∧ (final cfg1 witnessRace).chan = [(0, 0)] ∧
-    accounted (final cfg1 witnessRace).log (final cfg1 witnessRace).delivered (final cfg1 witnessRace).dead = false := by
+    (final cfg1 witnessRace).delivered = [(0, 0)] ∧ (final cfg1 witnessRace).chan = [] ∧
+    accounted (final cfg1 witnessRace).log (final cfg1 witnessRace).delivered (final cfg1 witnessRace).dead = true := by
   decide
 
-theorem C27_refuted : ¬ C27_full := by
-  intro h
-  have := h.2 cfg1 witnessRace rfl (by decide) (by decide) (by decide)
-  revert this
-  decide
-
-/-- Witness (finding C27-F2, fan-out queue full; queue size 1 for brevity): two single-message
-    batches fail while the drain goroutine has not run; the second hand-off is dropped. -/
+/-- Regression (fixed C27-F2, queue size 1 for brevity): two single-message batches fail while the drain
+    goroutine has not run; the second hand-off finds the queue full and is dead-lettered inline. -/
 def witnessFqFull : List Act :=
   [.begin (0, 0), .sub 0 0, .sub 0 0, .wstep 0 true, .wstep 0 true, .wstep 0 false,
    .begin (0, 1), .sub 0 0, .sub 0 0, .wstep 0 true, .wstep 0 true, .wstep 0 false,
@@ -160,14 +158,17 @@ def witnessFqFull : List Act :=
 
 theorem witnessFqFull_facts :
     let s := final { maxBatch := 1, hasHandler := true, fqCap := 1 } witnessFqFull
-    s.quiescent = true ∧ s.done = false ∧ s.dead = [(0, 0)] ∧ s.dropped = [[(0, 1)]] ∧
-    accounted s.log s.delivered s.dead = false := by decide
+    s.quiescent = true ∧ s.done = false ∧ s.dead = [(0, 1), (0, 0)] ∧ s.dropped = [] ∧
+    accounted s.log s.delivered s.dead = true := by decide
 
-/-- Witness (system shutdown): once `shuttingDown` is set every failed batch is dropped by the
-    handler — the final flushes of `Close` during `actorSystem.shutdown` are never dead-lettered. -/
+/-- Regression (system shutdown): once `shuttingDown` is set a failed batch is dead-lettered inline -/
 theorem witnessSysDown_facts :
     let s := final cfg1 [.begin (0, 0), .sub 0 0, .sub 0 0, .sysdown, .wstep 0 true, .wstep 0 true, .wstep 0 false]
-    s.quiescent = true ∧ s.dropped = [[(0, 0)]] ∧ accounted s.log s.delivered s.dead = false := by decide
+    s.quiescent = true ∧ s.dropped = [] ∧ accounted s.log s.delivered s.dead = true := by decide
+
+/-- the error handler never drops a hand-off any more -/
+theorem C27_no_handler_drop (c : Cfg) (acts : List Act) : (final c acts).dropped = [] :=
+  noDrop_run c acts rfl
 
 /-- PARTIAL THEOREM: for every schedule WITHOUT `close` (`done` still false at the end) in which the
     handler never had to drop a hand-off (fan-out queue had slack and the system was not shutting
@@ -186,11 +187,11 @@ theorem C27_partial (c : Cfg) (acts : List Act) (hh : c.hasHandler = true)
   rcases hl m hm with h | h | h | h | h
   · exact Or.inl h
   · exact Or.inr h
-  · have := hc (Or.inr (Or.inr h.2)); rw [hclose] at this; cases this
+  · have := hc (by simp [h.2, isClosingPc]); rw [hclose] at this; cases this
   · rw [hslack] at h; simp at h
   · unfold NoUnhandled at hu; rw [hu] at h; simp at h
 
-/-! ### what fix 305110c guarantees: a close that no submit call straddles loses nothing -/
+/-! ### what fixes 305110c + submit-close-barrier guarantee: close loses nothing -/
 
 theorem run_append (c : Cfg) (s : St) (a b : List Act) : run c s (a ++ b) = run c (run c s a) b := by
   simp [run, List.foldl_append]
@@ -205,51 +206,22 @@ theorem done_step (c : Cfg) {s : St} (a : Act) (h : s.done = true) : (step c s a
   | fdrain => simp only [step, fdrainStep]; split <;> exact h
   | sysdown => exact h
 
-theorem afterClose_inv (c : Cfg) (hmb : 0 < c.maxBatch) (post : List Act) {s : St}
-    (hn : NoRace s) (hc : Closing s) (he : ExitClean s) (hd : s.done = true) :
-    ExitClean (run c s post) := by
-  induction post generalizing s with
-  | nil => exact he
-  | cons a as ih =>
-    exact ih (noRace_step c a hn (fun _ => hn hd)) (closing_step c a hc)
-      (exitClean_step c hmb a hn hc he) (done_step c a hd)
-
-/-- CLOSE IS COMPLETE (for every schedule `pre ++ close :: post`): if this is the first close and at
-    that moment every submit call in progress is still before its `done` pre-check, then whenever the
-    writer goroutine has exited the channel is empty — every message accepted before the close has
-    been flushed (delivered or handed to the error handler).  The guard excludes exactly the racing
-    window of finding C27-F3. -/
-theorem C27_close_complete (c : Cfg) (pre post : List Act) (hmb : 0 < c.maxBatch)
-    (hfirst : (final c pre).done = false) (hpre : ∀ p ∈ (final c pre).pend, p.pc = .pre) :
-    (final c (pre ++ .close :: post)).wpc = .exited → (final c (pre ++ .close :: post)).chan = [] := by
+/-- CLOSE IS COMPLETE, for EVERY schedule: whenever the writer goroutine has exited the channel is empty —
+    every message whose submit returned nil has been flushed (delivered or handed to the error handler).
+    The barrier closes the racing window of the former finding C27-F3. -/
+theorem C27_close_complete (c : Cfg) (acts : List Act) (hmb : 0 < c.maxBatch) :
+    (final c acts).wpc = .exited → (final c acts).chan = [] := by
   intro hw
-  have hrun : final c (pre ++ .close :: post) = run c (step c (final c pre) .close) post := by
-    simp [final, run, List.foldl_append]
-  rw [hrun] at hw ⊢
-  have hc0 : Closing (final c pre) := closing_run c pre closing_init
-  have hn0 : NoRace (final c pre) := by intro hd; rw [hfirst] at hd; cases hd
-  have he1 : ExitClean (step c (final c pre) .close) := by
-    intro hx
-    have : (final c pre).done = true := by
-      rcases hx with hx | hx
-      · exact hc0 (Or.inr (Or.inr hx))
-      · exact hc0 (Or.inr (Or.inl hx.1))
-    rw [hfirst] at this; cases this
-  have := afterClose_inv c hmb post (noRace_step c .close hn0 (fun _ => hpre))
-    (closing_step c .close hc0) he1 rfl
-  exact this (Or.inl hw)
+  exact (barrier_run c hmb acts closing_init postBarrier_init exitClean_init).2.2 (Or.inl hw)
 
-/-- SECOND PARTIAL THEOREM (schedules WITH close): under the guard of `C27_close_complete` and with no
-    handler drop, every accepted message of every quiescent state was delivered or dead-lettered. -/
-theorem C27_partial_close (c : Cfg) (pre post : List Act) (hh : c.hasHandler = true) (hmb : 0 < c.maxBatch)
-    (hfirst : (final c pre).done = false) (hpre : ∀ p ∈ (final c pre).pend, p.pc = .pre)
-    (hslack : (final c (pre ++ .close :: post)).dropped = [])
-    (hq : (final c (pre ++ .close :: post)).quiescent = true) :
-    accounted (final c (pre ++ .close :: post)).log (final c (pre ++ .close :: post)).delivered
-      (final c (pre ++ .close :: post)).dead = true := by
-  have hl := C27_loss_sites c (pre ++ .close :: post) hq
-  have hu : NoUnhandled (final c (pre ++ .close :: post)) := noUnhandled_run c hh _ rfl
-  have hcc := C27_close_complete c pre post hmb hfirst hpre
+/-- SECOND PARTIAL THEOREM, now for every schedule (with or without close, any racing): with no handler
+    drop, every accepted message of every quiescent state was delivered or dead-lettered. -/
+theorem C27_partial_close (c : Cfg) (acts : List Act) (hh : c.hasHandler = true) (hmb : 0 < c.maxBatch)
+    (hslack : (final c acts).dropped = []) (hq : (final c acts).quiescent = true) :
+    accounted (final c acts).log (final c acts).delivered (final c acts).dead = true := by
+  have hl := C27_loss_sites c acts hq
+  have hu : NoUnhandled (final c acts) := noUnhandled_run c hh _ rfl
+  have hcc := C27_close_complete c acts hmb
   simp only [accounted, List.all_eq_true, Bool.or_eq_true, List.contains_iff_mem]
   intro m hm
   rcases hl m hm with h | h | h | h | h
@@ -259,12 +231,12 @@ theorem C27_partial_close (c : Cfg) (pre post : List Act) (hh : c.hasHandler = t
   · rw [hslack] at h; simp at h
   · unfold NoUnhandled at hu; rw [hu] at h; simp at h
 
-/-- the guards of `C27_partial_close` are met by the close-with-pending-messages run (the former
-    loss witness): nothing in progress at the close, two messages queued, both delivered -/
-example :
-    (final cfg1 (witnessClose.take 6)).done = false ∧ (final cfg1 (witnessClose.take 6)).pend = [] ∧
-    witnessClose = witnessClose.take 6 ++ .close :: witnessClose.drop 7 ∧
-    (final cfg1 witnessClose).dropped = [] ∧ (final cfg1 witnessClose).quiescent = true := by decide
+/-- THE FULL PROPERTY HOLDS on the model of the current code. -/
+theorem C27_holds : C27_full :=
+  ⟨C27_order, fun c acts hh hmb _ hq => C27_partial_close c acts hh hmb (C27_no_handler_drop c acts) hq⟩
+
+/-- the guards are met by the close-with-pending-messages run -/
+example : (final cfg1 witnessClose).dropped = [] ∧ (final cfg1 witnessClose).quiescent = true := by decide
 
 /-- the guards of `C27_partial` are satisfiable by a run with a failed batch, a blocked sender and
     batching: two threads, a failure, the fan-out drains — quiescent, not closed, nothing dropped -/
